@@ -14,8 +14,9 @@ LEVEL_TEXT = ('partial. Lean 4 theorems about the deterministic wrappers around 
               'non-negative integer; both shot-noise methods reject exactly the frames with a negative or an unrepresentably large count; '
               'read noise is additive and signal-independent; a dark frame without pattern noise is floor(rate); a power-spectrum '
               'surface is zero outside its mask with mean square exactly rms^2 over its non-zero pixels for every mask shape; '
-              'the accumulation of non-negative ray deposits is non-negative (tie to cosmic_rays sampled); power_spectrum grid/filter/noise shapes as the source builds them (regenerated); seeded functions depend on nothing but arguments and seed (regenerated effect '
-              'table). Distribution moments and "different seeds differ" are sampled assumption checks, not proved.')
+              'the accumulation of non-negative ray deposits is non-negative (tie to cosmic_rays sampled); power_spectrum grid/filter/noise shapes as the source builds them (regenerated); every function taking a seed builds its generator as default_rng(seed) with the bare parameter (or hands seed on unchanged: rule07 -> dark_current) '
+              'and touches no global generator, cache or module global: read off the source on every run (effect table with generator argument and seed-forwarding call sites). '
+              'Distribution moments and "different seeds differ" are sampled assumption checks, not proved.')
 LEVEL_NOTE = ('partial by nature: means/variances and seed sensitivity are properties of NumPy\'s generators (unproven clauses, sampled).')
 TECHNIQUE = 'Lean 4 proof (ordered-field algebra, Int.floor, decide on a regenerated effect table) + differential correspondence on identical draws'
 GEN = ['Effects', 'PowerSpectrum']
